@@ -749,3 +749,33 @@ def t36():
     h = Host()
     return (TABLE, COUNT, chosen(), LIMIT, h.twice(), h.thrice(), h.twice_late(), h.thrice_late(), Host.marker, h.marker,
             hasattr(h, 'four'), Host.thrice.__name__)
+
+
+def _make_method(k):
+    def method(self, other):
+        return self.base() * k + other
+    return method
+
+
+def _plain(self, other=0):
+    return ('plain', self.base(), other)
+
+
+class Made(object):
+    add3 = _make_method(3)
+    lam = lambda self, v: v + self.base()      # noqa: E731
+    plain = _plain
+    stat = staticmethod(_make_method(5))
+
+    def base(self):
+        return 2
+
+
+Made.later_static = staticmethod(lambda v: v * 2)
+Made.later_class = classmethod(lambda cls, v: (cls.__name__, v))
+
+
+def t37():
+    m = Made()
+    return (m.add3(1), m.lam(4), m.plain(), m.plain(7), Made.add3(m, 1), Made.later_static(4), m.later_static(5), m.later_class(6),
+            Made.stat(m, 1))
